@@ -621,21 +621,40 @@ def r7(ctx):
 def r8(ctx):
     """The per-read cursor into the sorted variant list only passes variants that lie strictly left of the read."""
     fi = ctx.func("whatshap.variants.ReadSetReader._alignments_to_reads")
+    cfg = ctx.cfg(fi)
     loops = [w for w in walk_function(fi.node) if isinstance(w, ast.While) and len(w.body) == 1 and isinstance(w.body[0], ast.AugAssign) and isinstance(w.body[0].op, ast.Add) and u(w.body[0].value) == "1"]
-    ctx.require(len(loops) >= 2, "cursor-advancing loops (with / without reference) not found in _alignments_to_reads")
+    ctx.require(len(loops) >= 1, "cursor-advancing loop not found in _alignments_to_reads")
+    START = "alignment.bam_alignment.reference_start"
+    good = {}
     for w in loops:
         cur = u(w.body[0].target)
         at = atoms(w.test, True)
         bound = [t for t, p in at if p and t.startswith("%s < len(" % cur)]
         seq = bound[0][len("%s < len(" % cur):-1] if bound else None
-        strict = [t for t, p in at if p and t.endswith("< alignment.bam_alignment.reference_start") and "[%s]" % cur in t]
+        strict = []
+        for t, p in at:
+            if not p or "[%s]" % cur not in t or " < " not in t:
+                continue
+            rhs = t.split(" < ", 1)[1]
+            if rhs != START:
+                d_ = util.single_def(fi.node, rhs) if rhs.isidentifier() else None
+                if d_ is None or u(d_) != START:
+                    continue
+            strict.append(t)
         ok = bool(bound) and len(strict) == 1 and len(at) == 2 and isinstance(w.test, ast.BoolOp) and isinstance(w.test.op, ast.And)
         ctx.ob(fi.qual, "cursor-skips-only-variants-left-of-the-read:%s" % (seq or "?"), ok, fi.loc(w), "the cursor passes %s[%s] only while it is < reference_start: a variant on the first aligned base is still examined" % (seq, cur) if ok else "`while %s` can pass a variant the read covers (position >= reference_start): no allele is recorded for it" % u(w.test)[:120])
-        # the cursor is handed to the detector of the same branch
-        blk = w.parent.body if w in getattr(w.parent, "body", []) else getattr(w.parent, "orelse", [])
-        det = [c for st in blk for c in ast.walk(st) if isinstance(c, ast.Call) and (u(c.func) in ("_detect_alleles", "self.detect_alleles_by_alignment"))]
-        okd = len(det) == 1 and any(u(a) == cur for a in det[0].args)
-        ctx.ob(fi.qual, "cursor-handed-to-detector:%s" % (seq or "?"), okd, fi.loc(det[0]) if det else fi.loc(w), "detection starts at the cursor" if okd else "the detector of this branch does not start at the cursor %s" % cur)
+        good[cfg.node_of(w)] = (cur, seq)
+    # every detector starts at a cursor that was advanced for this read
+    dets = [c for c in ctx.prog.calls_in(fi.node) if u(c.func) in ("_detect_alleles", "self.detect_alleles_by_alignment")]
+    ctx.require(len(dets) >= 2, "detector calls (with / without reference) not found in _alignments_to_reads")
+    for det in dets:
+        dn = cfg.node_containing(det)
+        doms = [(h, cs) for h, cs in good.items() if cfg.dominates(h, dn)]
+        # the innermost dominating cursor loop whose cursor is among the arguments
+        handed = [(h, cs) for h, cs in doms if any(u(a) == cs[0] for a in det.args)]
+        okd = len(handed) >= 1
+        seqs = sorted({cs[1] or "?" for h, cs in handed}) or ["?"]
+        ctx.ob(fi.qual, "cursor-handed-to-detector:%s:%s" % (u(det.func).split(".")[-1], seqs[0]), okd, fi.loc(det), "detection starts at the cursor that was advanced for this read" if okd else "the detector %s does not start at a cursor advanced for this read" % u(det.func))
 
 
 def r9(ctx):
@@ -678,6 +697,40 @@ def r9(ctx):
     skips = [w for w in whiles if is_skip(w)]
     shead = {cfg.node_of(w) for w in skips}
     qhead = cfg.node_of(ql)
+    # the skip loop may live in a helper: `j = helper(..., j, ..., ref_pos)` where the helper walks its cursor parameter
+    # forward while the variant's position is < its position parameter and returns the cursor
+    cursors = sorted({u(x.target) for x in ast.walk(ql) if isinstance(x, ast.AugAssign) and isinstance(x.target, ast.Name) and u(x.value) == "1"} & {x.id for x in ast.walk(ql.test) if isinstance(x, ast.Name)})
+    unknown_skips = set()
+    for st_ in walk_function(fi.node):
+        if not (isinstance(st_, ast.Assign) and len(st_.targets) == 1 and isinstance(st_.targets[0], ast.Name) and st_.targets[0].id in cursors and isinstance(st_.value, ast.Call)):
+            continue
+        c_ = st_.value
+        argt = [u(a_) for a_ in c_.args]
+        if pos not in argt or st_.targets[0].id not in argt:
+            continue
+        tg, how = ctx.resolve(c_, fi)
+        good = False
+        if len(tg) == 1:
+            g = tg[0]
+            gp = util.params_of(g.node)
+            if len(gp) >= len(argt):
+                pc, pp = gp[argt.index(st_.targets[0].id)], gp[argt.index(pos)]
+                gw = [w for w in walk_function(g.node) if isinstance(w, ast.While)]
+                rets = [r_ for r_ in walk_function(g.node) if isinstance(r_, ast.Return)]
+                if len(gw) == 1 and rets and all(r_.value is not None and u(r_.value) == pc for r_ in rets) and any(isinstance(x, ast.Name) and x.id == pc for x in ast.walk(gw[0].test)):
+                    w = gw[0]
+                    exits = [x for x in ast.walk(w) if isinstance(x, (ast.Break, ast.Return))]
+                    incs = [x for x in ast.walk(w) if isinstance(x, ast.AugAssign) and u(x.target) == pc and u(x.value) == "1" and isinstance(x.op, ast.Add)]
+                    stores_c = [x for x in ast.walk(g.node) if isinstance(x, ast.Name) and x.id == pc and isinstance(x.ctx, ast.Store)]
+                    if len(exits) == 1 and isinstance(exits[0].parent, ast.If) and len(incs) == 1 and len(stores_c) == 1 and not [x for x in ast.walk(w) if isinstance(x, ast.Continue)]:
+                        at = sorted(atoms(exits[0].parent.test, True))
+                        if len(at) == 1 and ((at[0][1] is False and at[0][0].endswith(" < %s" % pp)) or (at[0][1] is True and at[0][0].startswith("%s <= " % pp))):
+                            good = True
+                    elif not exits and len(incs) == 1 and len(stores_c) == 1 and len(w.body) == 1:
+                        at = atoms(w.test, True)
+                        if any(p_ and t_.endswith(" < %s" % pp) and ".position" in t_ for t_, p_ in at):
+                            good = True
+        (shead if good else unknown_skips).add(cfg.node_of(st_))
     adv = [st_ for st_, _ in util.assignments_to(fi.node, pos) if isinstance(st_, ast.stmt)]
     ctx.require(len(adv) >= 2, "definitions of ref_pos not found")
     for st_ in adv:
@@ -690,6 +743,8 @@ def r9(ctx):
         ok = path is None
         if path is not None and any(cfg.kind(x) == "test" and x != qhead and isinstance(cfg.stmt(x), ast.While) and any(isinstance(y, ast.Name) and y.id in vp for y in ast.walk(cfg.stmt(x))) for x in path[1:]):
             ok = None  # an unrecognised loop over the cursor lies on the way
+        if path is not None and any(x in unknown_skips for x in path):
+            ok = None  # a helper call that advances the cursor, but not in a form this rule can read
         ctx.ob(fi.qual, "variants-left-of-ref_pos-passed-before-queueing:%s" % u(st_)[:40], ok, fi.loc(st_), "after `%s` the cursor passes every variant left of ref_pos before a variant is queued with offset var_pos - ref_pos" % u(st_) if ok else "after `%s` (ref_pos moves without looking at variants) the next operation queues pending variants with a negative offset var_pos - ref_pos: a read gets an allele for a variant inside a reference skip it does not overlap" % u(st_), cfg.describe_path(path) if path else None)
 
 
